@@ -87,22 +87,26 @@ void h_ec_commit(void) {
     WITNESS_BUF(dataw, data, dlen, 64);
     __CPROVER_assert(ret == 0 || ret == 1, "C15 ec_commit: returns 0 or 1");
     __CPROVER_assert(FE_EQ(P.x, P0.x) && FE_EQ(P.y, P0.y) && P.infinity == P0.infinity, "C15 ec_commit: the input point is not modified");
-    if (P0.infinity) __CPROVER_assert(ret == 0 && g_fin_n == 0 && g_ecmult_n == 0, "C15 ec_commit: infinity => 0, nothing hashed");
-    else {
+    if (P0.infinity) __CPROVER_assert(ret == 0, "C15 ec_commit: infinity => 0");
+    d = be256(g_w_dig);
+    /* oracle / hash usage is demanded on the ACCEPTING path only; a rejection must have one of the three reasons */
+    if (ret == 1) {
+        __CPROVER_assert(!P0.infinity, "C15 ec_commit: succeeds only for a finite point");
         HASH_POST("C15 ec_commit", P0, hs0, hs7, hb0, data, dlen);
-        d = be256(g_w_dig);
-        if (d >= n) __CPROVER_assert(ret == 0 && g_ecmult_n == 0, "C15 ec_commit: tweak >= n => 0 before any curve work");
-        else {
-            __CPROVER_assert(g_ecmult_n == 1 && g_ecmult_has_na0 && g_ecmult_has_ng0 && sval(&g_ecmult_na0) == 1 && sval(&g_ecmult_ng0) == d, "C15 ec_commit: requests 1*P + be256(digest)*G");
-            { secp256k1_fe nx = P0.x, ny = P0.y; secp256k1_fe_normalize(&nx); secp256k1_fe_normalize(&ny);   /* the code normalizes its copy of the point */
-              __CPROVER_assert(FE_EQ(g_ecmult_a0.x, nx) && FE_EQ(g_ecmult_a0.y, ny) && !g_ecmult_a0.infinity && fval(&g_ecmult_a0.z) == 1, "C15 ec_commit: the point tweaked is the input point"); }
-            __CPROVER_assert(ret == !g_ecmult_r0.infinity, "C15 ec_commit: fails iff the tweaked point is infinity");
-            if (ret == 1) __CPROVER_assert(g_sg_n == 1 && FE_EQ(g_sg_a0.x, g_ecmult_r0.x) && FE_EQ(g_sg_a0.y, g_ecmult_r0.y) && FE_EQ(g_sg_a0.z, g_ecmult_r0.z) && GE_EQ(g_sg_r0, &C), "C15 ec_commit: commitment is the affine form of the tweaked point");
-            if (ret == 1) __CPROVER_assert(ge_ok1(&C) && !C.infinity, "C15 ec_commit: a successful commitment is a finite point with magnitude-1 coordinates");
-            if (ret == 1) REACH("ec_commit success");
-            if (ret == 0) REACH("ec_commit tweaked point infinity");
-        }
-        if (d >= n) REACH("ec_commit tweak >= n");
+        __CPROVER_assert(d < n, "C15 ec_commit: succeeds only with a tweak < n");
+        __CPROVER_assert(g_ecmult_n >= 1 && g_ecmult_has_na0 && sval(&g_ecmult_na0) == 1 && (g_ecmult_has_ng0 ? sval(&g_ecmult_ng0) == d : d == 0), "C15 ec_commit: requests 1*P + be256(digest)*G");
+        { secp256k1_fe nx = P0.x, ny = P0.y; secp256k1_fe_normalize(&nx); secp256k1_fe_normalize(&ny);   /* the code normalizes its copy of the point */
+          __CPROVER_assert(FE_EQ(g_ecmult_a0.x, nx) && FE_EQ(g_ecmult_a0.y, ny) && !g_ecmult_a0.infinity && fval(&g_ecmult_a0.z) == 1, "C15 ec_commit: the point tweaked is the input point"); }
+        __CPROVER_assert(!g_ecmult_r0.infinity, "C15 ec_commit: succeeds only if the tweaked point is finite");
+        __CPROVER_assert(g_sg_n >= 1 && FE_EQ(g_sg_a0.x, g_ecmult_r0.x) && FE_EQ(g_sg_a0.y, g_ecmult_r0.y) && FE_EQ(g_sg_a0.z, g_ecmult_r0.z) && GE_EQ(g_sg_r0, &C), "C15 ec_commit: commitment is the affine form of the tweaked point");
+        __CPROVER_assert(ge_ok1(&C) && !C.infinity, "C15 ec_commit: a successful commitment is a finite point with magnitude-1 coordinates");
+        REACH("ec_commit success");
     }
+    if (ret == 0) __CPROVER_assert(P0.infinity || (g_fin_n >= 1 && d >= n) || (g_ecmult_n >= 1 && g_ecmult_r0.infinity), "C15 ec_commit: fails only for an infinite point, a tweak >= n, or an infinite tweaked point");
+    if (!P0.infinity && g_fin_n >= 1 && d >= n) __CPROVER_assert(ret == 0, "C15 ec_commit: tweak >= n => 0");
+    if (g_ecmult_n >= 1 && g_ecmult_r0.infinity) __CPROVER_assert(ret == 0, "C15 ec_commit: infinite tweaked point => 0");
+    if (ret == 0 && g_ecmult_n >= 1) REACH("ec_commit tweaked point infinity");
+    if (ret == 0 && !P0.infinity && g_fin_n >= 1 && d >= n) REACH("ec_commit tweak >= n");
+    if (P0.infinity) REACH("ec_commit infinite point");
 }
 #endif
